@@ -13,15 +13,20 @@ def first_pass():
     """what the checks said when the seed was first tried (before the checks were strengthened)"""
     import ast
     out = {}
-    # the first matrix in which a seed appears (round 1: k = 1, 2; round 2: k = 3..5; round 3: k = 6..8)
-    for fn, ks in [('matrix_4_all_142_seeds_after_round2_strengthening.log', '678'), ('matrix_2_all_seeds_after_round1_strengthening.log', '345'), ('matrix_1_round1_seeds_first_checks.log', '12')]:
+    # the first matrix in which a seed appears (round 1: k = 1, 2; round 2: k = 3..5; round 3: k = 6..8; round 4: k = 9..11)
+    for fn, ks in [('matrix_6_round4_new_seeds_first_checks.log', ['9', '10', '11']), ('matrix_4_all_142_seeds_after_round2_strengthening.log', ['6', '7', '8']), ('matrix_2_all_seeds_after_round1_strengthening.log', ['3', '4', '5']), ('matrix_1_round1_seeds_first_checks.log', ['1', '2'])]:
         pth = ROOT + '/seeded/history/' + fn
         if not os.path.exists(pth):
             continue
         for l in open(pth):
-            m = re.match(r"(C\d\d-(\d)) detected by (\[.*?\])", l)
+            m = re.match(r"(C\d\d-(\d+)) detected by (\[.*?\])", l)
             if m and m.group(2) in ks:
-                out[m.group(1)] = ast.literal_eval(m.group(3))
+                det = ast.literal_eval(m.group(3))
+                if fn.startswith('matrix_6'):
+                    # during that run C15 quick was failing on the unmodified tree too (a false alarm of a
+                    # new template, DESIGN section 6): its reports count only for C15's own seeds
+                    det = [x for x in det if not (x == 'C15 quick' and not m.group(1).startswith('C15'))]
+                out[m.group(1)] = det
     return out
 
 def first_sentence(summ):
@@ -30,7 +35,7 @@ def first_sentence(summ):
 def matrix():
     first = first_pass()
     rows = []
-    for d in sorted(glob.glob(ROOT + '/seeded/C??-?')):
+    for d in sorted(glob.glob(ROOT + '/seeded/C??-*'), key=lambda d: (os.path.basename(d).split('-')[0], int(os.path.basename(d).split('-')[1]))):
         name = os.path.basename(d)
         agent = json.load(open(d + '/agent_meta.json'))
         meta = json.load(open(d + '/meta.json')) if os.path.exists(d + '/meta.json') else {}
